@@ -408,6 +408,9 @@ def run(ctx):
                 bd = strip_sym(r[3][r[4].index("bucket_duration")])
                 ok = ok and is_param(bd, 1)
             chk.ob("C15.d", nw.path, ok, "max_bucket_duration = bucket_duration * buckets" if ok else "the window length is not bucket_duration * bucket count", nw.loc())
+    from props.common import import_rules
+
+    import_rules(ctx, "C07", {"C07.b"}, "C15.e", "imported from C07 (how a summary is aggregated and rendered): per sample one add(sample, ts) and sum += sample, and render takes _count/_sum from the cumulative counters, never from the windowed snapshot — otherwise _sum and _count do not cover all samples (they shrink as the window moves, or skip non-finite samples)", floor=4)
 
 
 def _root(s):
